@@ -3,7 +3,8 @@
 //! SPACE. All programs of length <= k over the 69-letter alphabet A24 (a letter = 1..3
 //! instructions; operands come from the progkit prelude plus a 12-instruction extra
 //! prelude loading MEM-8, the tx offset, lengths, a blob-id pointer, a balance-table
-//! pointer, a pointer to two alt_bn128 points and a non-zero store value), each executed in three contexts on the real
+//! pointer, a pointer to two alt_bn128 points and a non-zero store value), each executed in four
+//! contexts on the real
 //! interpreter, instruction by instruction:
 //!   * `script`       — the program is the script body;
 //!   * `callee-bare`  — the program is the code of contract A, called from a script that
@@ -13,8 +14,15 @@
 //!                      caller's heap" are allocated-but-foreign addresses; before its own
 //!                      first allocation the callee's $hp points at the caller's heap, so
 //!                      every `@hp` letter then targets foreign allocated memory.
-//! The letter `call` targets the *other* contract (A from the script, B from inside A),
-//! a fixed "citizen" that grows and writes its own stack and heap, so nesting depth is <= 2.
+//!   * `callee-deep`  — script (owning stack and heap as in callee-rich) -> contract A
+//!                      (owns 16 bytes of stack, allocates 64 bytes of heap and writes a
+//!                      canary, then calls) -> the program as the code of contract B: every
+//!                      `@hp` letter first targets the *intermediate* caller's heap, every
+//!                      store below $fp its frame/stack; the owned heap is bounded by the
+//!                      direct caller's saved $hp, not the outermost one.
+//! The letter `call` targets the *other* contract (A from the script and from B, B from
+//! inside A), a fixed "citizen" that grows and writes its own stack and heap (in
+//! callee-deep A acts as the citizen when re-entered), so nesting depth is <= 3.
 //! Every program is padded with `ret` to the same number of instruction slots (3k+1), so
 //! all programs of one run have the same memory layout. A program whose execution ends
 //! before its last letter (panic / ret / revert in an earlier letter) is behaviourally
@@ -140,6 +148,7 @@ const R_IDX: u8 = 0x2e; // index of the first variable output
 const R_BLOB: u8 = 0x2f; // pointer to a blob id
 const R_BAL: u8 = 0x30; // value field of the first balance-table entry
 const V: u8 = 0x31; // non-zero value to store
+const R_DEEP: u8 = 0x33; // 0 until the middleman contract of `callee-deep` ran once
 const R_EC: u8 = 0x32; // pointer to two alt_bn128 G1 points (generator twice)
 
 const GAS: u64 = 1_000_000;
@@ -151,6 +160,7 @@ enum Kind {
     Script,
     CalleeBare,
     CalleeRich,
+    CalleeDeep,
 }
 
 impl Kind {
@@ -159,6 +169,7 @@ impl Kind {
             Kind::Script => "script",
             Kind::CalleeBare => "callee-bare",
             Kind::CalleeRich => "callee-rich",
+            Kind::CalleeDeep => "callee-deep",
         }
     }
 
@@ -167,12 +178,18 @@ impl Kind {
             "script" => Kind::Script,
             "callee-bare" => Kind::CalleeBare,
             "callee-rich" => Kind::CalleeRich,
+            "callee-deep" => Kind::CalleeDeep,
             o => panic!("unknown context {o}"),
         }
     }
 
-    fn all() -> [Kind; 3] {
-        [Kind::Script, Kind::CalleeBare, Kind::CalleeRich]
+    fn all() -> [Kind; 4] {
+        [
+            Kind::Script,
+            Kind::CalleeBare,
+            Kind::CalleeRich,
+            Kind::CalleeDeep,
+        ]
     }
 }
 
@@ -212,6 +229,27 @@ fn citizen() -> Vec<Instruction> {
     ]
 }
 
+/// Contract A of the `callee-deep` context: the first time it owns stack, allocates and
+/// writes its own heap, then calls B (the program under exploration); when re-entered by
+/// the program (R_DEEP != 0) it is the citizen.
+fn middleman() -> Vec<Instruction> {
+    let mut v = vec![
+        op::jnzi(R_DEEP, 10),
+        op::movi(R_DEEP, 1),
+        op::cfei(16),
+        op::sw(ssp(), V, 0),
+        op::sw(ssp(), V, 1),
+        op::aloc(R_L32),
+        op::aloc(R_L32),
+        op::sw(hp(), V, 0),
+        op::call(r::CALL_B, z(), r::ASSET_BASE, cgas()),
+        op::ret(one()),
+    ];
+    assert_eq!(v.len(), 10);
+    v.extend(citizen());
+    v
+}
+
 fn extra_prelude(tx_offset: u64) -> Vec<Instruction> {
     vec![
         op::movi(R_MEM8, 1),
@@ -232,9 +270,12 @@ fn extra_prelude(tx_offset: u64) -> Vec<Instruction> {
 /// A24. `other` = call struct of the contract the letter `call` targets, `asset` = asset
 /// the executing context can spend (base for the script, X for contract A).
 fn alphabet(kind: Kind) -> Vec<Letter> {
-    let (other, asset) = match kind {
-        Kind::Script => (r::CALL_A, r::ASSET_BASE),
-        _ => (r::CALL_B, r::ASSET_X),
+    let (other, asset, tr_to) = match kind {
+        Kind::Script => (r::CALL_A, r::ASSET_BASE, r::CALL_B),
+        // the program is contract B (spends base asset); `call` re-enters A, which then
+        // behaves as the citizen (flag register R_DEEP is set)
+        Kind::CalleeDeep => (r::CALL_A, r::ASSET_BASE, r::CALL_A),
+        _ => (r::CALL_B, r::ASSET_X, r::CALL_B),
     };
     let add = MathArgs {
         op: MathOp::ADD,
@@ -334,7 +375,7 @@ fn alphabet(kind: Kind) -> Vec<Letter> {
         // calls, transfers, returns
         letter("call", vec![op::call(other, z(), r::ASSET_BASE, cgas())]),
         letter("call+coin", vec![op::call(other, one(), asset, cgas())]),
-        letter("tr", vec![op::tr(r::CALL_B, one(), asset)]),
+        letter("tr", vec![op::tr(tr_to, one(), asset)]),
         letter("tro", vec![op::tro(r::RECIPIENT, R_IDX, one(), asset)]),
         letter("smo", vec![op::smo(r::RECIPIENT, p, z(), one())]),
         letter("ret", vec![op::ret(one())]),
@@ -355,7 +396,7 @@ struct Env {
 
 fn make_env(kind: Kind) -> Env {
     let mut cfg = WorldCfg::default();
-    cfg.code_a = citizen();
+    cfg.code_a = if kind == Kind::CalleeDeep { middleman() } else { citizen() };
     cfg.code_b = citizen();
     cfg.code_c = citizen();
     cfg.balances.push((A, AssetId::BASE, 100));
@@ -393,7 +434,7 @@ fn make_env(kind: Kind) -> Env {
     assert_eq!(assets.iter().next(), Some(&base), "R_BAL must address the base entry");
 
     let mut driver = vec![];
-    if kind == Kind::CalleeRich {
+    if kind == Kind::CalleeRich || kind == Kind::CalleeDeep {
         driver.extend([
             op::cfei(16),
             op::sw(ssp(), V, 0),
@@ -1034,8 +1075,12 @@ fn run(env: &Env, seq: &[u64], slots: usize, acc: &mut Acc) -> bool {
             key.copy_from_slice(&env.world.data[off::PATTERN as usize..off::PATTERN as usize + 32]);
             let slot = StorageSlot::new(Bytes32::new(key), Bytes32::new([0xEE; 32]));
             vm.as_mut()
-                .deploy_contract_with_id(&[slot], &code, &A)
-                .expect("deploy program as contract A");
+                .deploy_contract_with_id(
+                    &[slot],
+                    &code,
+                    if env.kind == Kind::CalleeDeep { &B } else { &A },
+                )
+                .expect("deploy program as contract A (B in callee-deep)");
             vm
         }
     };
@@ -1044,7 +1089,11 @@ fn run(env: &Env, seq: &[u64], slots: usize, acc: &mut Acc) -> bool {
     let script_is = r0[IS];
     let max_inputs = env.world.params.tx_params().max_inputs() as u64;
     let bal_end = BAL_OFF + BAL_ENTRY * max_inputs;
-    let base_depth = if env.kind == Kind::Script { 0 } else { 1 };
+    let base_depth = match env.kind {
+        Kind::Script => 0,
+        Kind::CalleeDeep => 2,
+        _ => 1,
+    };
     // pc of the first pad instruction (known once the program's code start is known)
     let mut live_pc: Option<u64> = if env.kind == Kind::Script {
         Some(r0[PC] + 4 * (env.extra.len() + plen) as u64)
@@ -1290,7 +1339,7 @@ fn run(env: &Env, seq: &[u64], slots: usize, acc: &mut Acc) -> bool {
         // ---- bookkeeping
         if entered {
             shadow.push(f.hp);
-            if live_pc.is_none() && shadow.len() == 1 {
+            if live_pc.is_none() && shadow.len() == base_depth {
                 live_pc = Some(ra[IS] + 4 * plen as u64);
             }
         }
@@ -1354,7 +1403,7 @@ fn report(ctx: &Ctx, total: &mut Acc) {
 fn explore(ctx: &Ctx) {
     ctx.rule(
         "all letter sequences of length <= k over A24, shortest first then lexicographic, in \
-         three execution contexts; extensions of a program whose execution ended before its \
+         four execution contexts; extensions of a program whose execution ended before its \
          last letter are represented by that program (same padded layout, dead tail). A run \
          is non-trivial when at least one monitored step changed memory; distinct = distinct \
          (context, per-step (opcode, result, write categories)) traces",
